@@ -41,6 +41,9 @@ THEOREMS = [
     "C09_history_wf",
     "C09_history_trees",
     "C09_history",
+    "C09_write_frame",
+    "C09_values_only",
+    "C09_undo",
     "C09_load_aligned",
     "C09_load_redundant",
     "C09_imp_cell_once",
@@ -152,7 +155,7 @@ def gen_ops(rng, ncells, mode, numbers, unis, nsurf, length=None, imp_bias=0.0):
         elif r < 0.73:
             ops.append(["del_vol", rng.randrange(n)])
         elif r < 0.81:
-            ops.append(["u", rng.randrange(n), rng.choice(unis + [9])])
+            ops.append(["u", rng.randrange(n), rng.choice(unis + [9, 0])])  # 0: back to the base universe (unset)
         elif r < 0.87:
             ops.append(["fill", rng.randrange(n), rng.choice(unis + [None])])
         elif r < 0.93:
@@ -233,6 +236,169 @@ def shape_other_params(rng, gp):
             c["extra_params"] = sorted(extra.items())
 
 
+# --------------------------------------------------------------------------- undo: edits that restore an earlier value
+def order_after(numbers, ops):
+    """the cell numbers in cell order after the history (operations address cells by position)"""
+    order = list(numbers)
+    for o in ops:
+        if o[0] == "append":
+            order.append(o[1]["number"])
+        elif o[0] == "remove":
+            del order[o[1]]
+        elif o[0] == "move_end":
+            order.append(order.pop(o[1]))
+        elif o[0] == "reorder":
+            order = [order[j] for j in o[1]]
+    return order
+
+
+def touched_by(numbers, ops, mode):
+    """[(cell number, class, particle)] in first-touch order: every per-cell datum the history assigned or deleted"""
+    order = list(numbers)
+    out = []
+    for o in ops:
+        cls = {"vol": "vol", "del_vol": "vol", "u": "u", "fill": "fill", "lat": "lat", "imp": "imp", "imp_all": "imp"}.get(o[0])
+        if cls is not None:
+            for m in ([o[2]] if o[0] == "imp" else list(mode) if o[0] == "imp_all" else [None]):
+                if (order[o[1]], cls, m) not in out:
+                    out.append((order[o[1]], cls, m))
+        order = order_after(order, [o])
+    return out
+
+
+def restore_op(cls, pos, orig, m=None):
+    """the assignment that gives the cell at `pos` the value the FILE gave it (`orig`: its entry of info["orig"]);
+    None where the API has no such assignment (a fill with a transform / a matrix; a particle the file gave no importance)"""
+    if cls == "vol":
+        return ["del_vol", pos] if orig["vol"] is None else ["vol", pos, orig["vol"]]
+    if cls == "u":
+        return ["u", pos, orig["u"] or 0]
+    if cls == "lat":
+        return ["lat", pos, orig["lat"]]
+    if cls == "fill":
+        return None if orig["fill"] == "complex" else ["fill", pos, orig["fill"]]
+    return ["imp", pos, m, orig["imp"][m]] if m in orig["imp"] else None
+
+
+def disturb_op(rng, cls, pos, orig, unis, m=None):
+    """an edit that takes the datum away from the file's value: UNSET it (delete the volume, back to universe 0, no
+    fill, no lattice) where it had one, else / otherwise another value"""
+    unset = rng.random() < 0.65
+    if cls == "vol":
+        return ["del_vol", pos] if unset and orig["vol"] is not None else ["vol", pos, rng.choice([v for v in (7.25, 0.5, 12.0) if v != orig["vol"]])]
+    if cls == "u":
+        return ["u", pos, 0] if unset and orig["u"] else ["u", pos, rng.choice([v for v in list(unis) + [9] if v != orig["u"]])]
+    if cls == "lat":
+        return ["lat", pos, None] if unset and orig["lat"] is not None else ["lat", pos, 2 if orig["lat"] == 1 else 1]
+    if cls == "fill":
+        return ["fill", pos, None] if unset and orig["fill"] is not None else ["fill", pos, rng.choice([v for v in list(unis) + [9] if v != orig["fill"]])]
+    return ["imp", pos, m, float(rng.choice([v for v in (0, 1, 2, 3, 8) if v != orig["imp"].get(m)]))]
+
+
+def undo_all(info, ops, rng=None, keep=1.0):
+    """restore every datum of a cell of the file that the history touched (and that is still in the problem) to the
+    value the file gave it; with keep < 1 some are left as they are"""
+    order = order_after(info["numbers"], ops)
+    out = []
+    for num, cls, m in touched_by(info["numbers"], ops, info["mode"]):
+        if num in info["orig"] and num in order and (rng is None or rng.random() < keep):
+            o = restore_op(cls, order.index(num), info["orig"][num], m)
+            if o is not None:
+                out.append(o)
+    return out
+
+
+def gen_undo_history(rng, text, limit, info):
+    """UNDO AFTER AN INTERMEDIATE WRITE: flags (biased to the data block), [write], then 1-2 rounds of: take 1-3 data of
+    cells of the file away from the file's value (unset or changed), [observe], WRITE, give them exactly the file's
+    value back (now and then all but one), WRITE. Every written file is judged."""
+    ops = [["flags", [rng.random() < 0.7 for _ in CLASSES]]]
+    if rng.random() < 0.5:
+        ops.append(["write"])
+    nums = info["numbers"]
+    for _ in range(rng.randint(1, 2)):
+        targets = []
+        for _ in range(rng.randint(1, 3)):
+            pos = rng.randrange(len(nums))
+            cls = rng.choice(["vol", "vol", "u", "u", "fill", "lat", "imp"])
+            m = rng.choice(info["mode"]) if cls == "imp" else None
+            orig = info["orig"][nums[pos]]
+            if (pos, cls, m) in targets or (cls == "fill" and orig["fill"] == "complex") or (cls == "imp" and m not in orig["imp"]):
+                continue
+            targets.append((pos, cls, m))
+        for pos, cls, m in targets:
+            ops.append(disturb_op(rng, cls, pos, info["orig"][nums[pos]], info["unis"], m))
+        if rng.random() < 0.15:
+            ops.append(["observe", rng.randrange(len(nums))])
+        ops.append(["write"])
+        back = [restore_op(cls, pos, info["orig"][nums[pos]], m) for pos, cls, m in targets]
+        rng.shuffle(back)
+        if len(back) > 1 and rng.random() < 0.2:
+            back.pop()
+        ops += back
+        ops.append(["write"])
+    return {"text": text, "limit": limit, "ops": ops, "src": "undo"}
+
+
+# hand-made problems whose per-cell values are known: (imp n, imp p, vol, u, lat, fill) per cell
+UNDO_VALUES = [
+    # every cell holds every datum: the data-block vectors have no jump
+    [{"imp": {"n": 1.0, "p": 1.0}, "vol": 1.5, "u": 5, "lat": 1, "fill": 6},
+     {"imp": {"n": 2.0, "p": 1.0}, "vol": 2.5, "u": 5, "lat": 2, "fill": 6},
+     {"imp": {"n": 0.0, "p": 0.0}, "vol": 3.5, "u": 6, "lat": 1, "fill": 5}],
+    # jumps at the end / in the middle / at the start
+    [{"imp": {"n": 1.0, "p": 2.0}, "vol": 1.5, "u": 5, "lat": None, "fill": None},
+     {"imp": {"n": 1.0, "p": 2.0}, "vol": None, "u": 6, "lat": 1, "fill": 5},
+     {"imp": {"n": 0.0, "p": 0.0}, "vol": 3.5, "u": None, "lat": 2, "fill": 5}],
+]
+
+
+def undo_small_text(values, in_data):
+    """the problem with the classes of `in_data` given in the data block, the others on the cell cards"""
+    def word(v):
+        return "j" if v is None else ("%g" % v)
+    cards = []
+    for c in values:
+        ps = []
+        if "imp" not in in_data:
+            ps += [f"imp:{m}={word(v)}" for m, v in c["imp"].items()]
+        ps += [f"{k}={word(c[k])}" for k in ("vol", "u", "lat", "fill") if k not in in_data and c[k] is not None]
+        cards.append(" ".join(ps))
+    data = ""
+    if "imp" in in_data:
+        data += "".join(f"imp:{m} " + " ".join(word(c["imp"][m]) for c in values) + "\n" for m in ("n", "p"))
+    for k in ("vol", "u", "lat", "fill"):
+        if k in in_data:
+            data += k + " " + " ".join(word(c[k]) for c in values) + "\n"
+    return SMALL.format(c1=cards[0], c2=cards[1], c3=cards[2], data=data)
+
+
+def small_undo_cases():
+    """EXHAUSTIVE over 2 value tables x 3 placements (all in the data block / all on the cards / mixed) x every cell x
+    every class x {unset, other value} x 4 flag vectors x {write first or not}: flags, [write], the edit, WRITE, the
+    file's value assigned again, WRITE"""
+    cases = []
+    for values in UNDO_VALUES:
+        for in_data in (("imp", "vol", "u", "lat", "fill"), (), ("vol", "fill")):
+            text = undo_small_text(values, in_data)
+            for pos, c in enumerate(values):
+                orig = {"imp": c["imp"], "vol": c["vol"], "u": c["u"], "lat": c["lat"], "fill": c["fill"]}
+                for cls in ("vol", "u", "lat", "fill", "imp"):
+                    m = "p" if cls == "imp" else None
+                    edits = []
+                    if cls != "imp" and orig[cls] is not None:
+                        edits.append({"vol": ["del_vol", pos], "u": ["u", pos, 0], "lat": ["lat", pos, None], "fill": ["fill", pos, None]}[cls])
+                    edits.append({"vol": ["vol", pos, 7.25], "u": ["u", pos, 9], "lat": ["lat", pos, 2 if orig["lat"] == 1 else 1],
+                                  "fill": ["fill", pos, 9], "imp": ["imp", pos, "p", 8.0]}[cls])
+                    back = restore_op(cls, pos, orig, m)
+                    for e in edits:
+                        for fl in ([True] * 5, [False] * 5, [False, True, True, False, False], [True, False, False, True, True]):
+                            for first in (False, True):
+                                cases.append({"text": text, "limit": 128, "src": "small-undo",
+                                              "ops": [["flags", fl]] + ([["write"]] if first else []) + [e, ["write"], back, ["write"]]})
+    return cases
+
+
 def gen_problem(rng):
     gp = genprob.generate(rng, features=FEATURES)
     shape_importances(rng, gp)
@@ -242,7 +408,11 @@ def gen_problem(rng):
     text = genprob.render(gp, rng, limit, style)
     unis = sorted({c["u"] for c in gp["cells"] if c["u"]} | {c["fill"] for c in gp["cells"] if c["fill"]})
     info = {"ncells": len(gp["cells"]), "mode": gp["mode"], "numbers": [c["number"] for c in gp["cells"]],
-            "unis": unis, "nsurf": len(gp["surfaces"]), "fill_tr": any(c["fill_tr"] is not None for c in gp["cells"])}
+            "unis": unis, "nsurf": len(gp["surfaces"]), "fill_tr": any(c["fill_tr"] is not None for c in gp["cells"]),
+            # the value of every per-cell datum AS THE FILE GIVES IT, by cell number (what an undo restores)
+            "orig": {c["number"]: {"imp": dict(c["imp"]), "vol": c["vol"], "u": c["u"], "lat": c.get("lat"),
+                                   "fill": "complex" if (isinstance(c["fill"], list) or c["fill_tr"] is not None) else c["fill"]}
+                     for c in gp["cells"]}}
     return text, limit, info
 
 
@@ -286,6 +456,10 @@ def gen_cases(chk):
             for fl in u_flags:
                 cases.append({"text": text, "limit": 128, "ops": [["flags", fl], ["write"]] + ops + [["write"]], "src": "small"})
                 nsmall += 1
+    # 2c. undo after an intermediate write, exhaustively on hand-made problems whose values are known
+    undo_small = small_undo_cases()
+    cases += undo_small
+    nsmall += len(undo_small)
     # 3. MontePy's own fixtures: every flag vector, then the opposite vector, then back (switching back and forth)
     nfix = 0
     fx = fixtures()
@@ -307,8 +481,12 @@ def gen_cases(chk):
         nums = info["numbers"] + [o[1]["number"] for o in ops if o[0] == "append"]
         ops_b = gen_ops(rng, n, info["mode"], nums, info["unis"], info["nsurf"], length=rng.randint(1, 2), imp_bias=0.5)
         tail = []
-        if rng.random() < 0.3:
+        r = rng.random()
+        if r < 0.3:
             tail = [["flags", [rng.choice([True, False, None]) for _ in CLASSES]], ["write"]]
+        elif r < 0.6:
+            # every datum of a cell of the file that the history touched gets the file's value back, WRITE
+            tail = undo_all(info, ops + ops_b) + [["write"]]
         for fl in ALL_FLAGS:
             cases.append({"text": text, "limit": limit, "ops": ops + [["flags", fl], ["write"]] + ops_b + [["write"]] + tail, "src": "generated"})
             ngen += 1
@@ -334,9 +512,20 @@ def gen_cases(chk):
                     fl[k] = rng.random() < 0.5
                 ops.append(["flags", fl])
             ops.append(["write"])
+            if rng.random() < 0.2:
+                # an undo segment: (most of) what the history touched so far gets the file's value back, WRITE
+                back = undo_all(info, ops, rng, keep=0.85)
+                if back:
+                    ops += back + [["write"]]
         cases.append({"text": text, "limit": limit, "ops": ops, "src": "history"})
+    # 6. undo after an intermediate write on generated problems (see gen_undo_history)
+    rng = chk.rng("undo")
+    nundo = chk.pick(260, 6000)
+    for i in range(nundo):
+        text, limit, info = gen_problem(rng)
+        cases.append(gen_undo_history(rng, text, limit, info))
     chk.units["U-celldata"] = {"corpus": ncorpus, "small_exhaustive": nsmall, "fixtures": nfix, "generated_x32": ngen,
-                               "histories": nhist, "fixture_files": len(fx)}
+                               "histories": nhist, "undo_histories": nundo, "small_undo": len(undo_small), "fixture_files": len(fx)}
     return cases
 
 
@@ -708,7 +897,9 @@ def run(chk):
         "a case is a generated / fixture / hand-made MCNP file (per-cell data in the cell block, in the data block or mixed "
         "per class) read by MontePy, a valid API history (cell append / remove / move / reorder, importance, volume, "
         "universe, fill, lattice, not_truncated, allow_mcnp_volume_calc edits, print_in_data_block flags) and one or more "
-        "write_to_file; generated problems and small shapes are run under ALL 32 flag vectors; in half of the generated problems "
+        "write_to_file, with UNDO edits among them (a datum unset or changed, a write, exactly the file's value assigned again, a write: "
+        "exhaustively over hand-made problems x cell x class, on generated problems, and as undo segments of the long histories; "
+        "the value restored is the one the FILE gave); generated problems and small shapes are run under ALL 32 flag vectors; in half of the generated problems "
         "and in 9 small shapes the cell cards carry OTHER cell parameters as well (every cell keyword: NONU, UNC, TMP, PWT, EXT, "
         "FCL, WWN, DXC, PD, ELPT, COSY, BFLCL; numbered / with particle designators). Every written file is read "
         "by the Spec reader and judged. Non-trivial: the case reads, and at least one write has a per-cell datum in the "
@@ -733,6 +924,7 @@ def run(chk):
 
     cases = gen_cases(chk)
     chk.exhaustive = {"flag_vectors": "all 32 for every generated problem, small shape and (thorough) fixture",
+                      "small_undo": "2 value tables x 3 placements x 3 cells x 5 classes x {unset, other value} x 4 flag vectors x {write first or not}: edit, write, the file's value again, write",
                       "small_shapes": "6 shapes x 21 single operations x 32 flag vectors + 5 importance shapes x 21 x 8 + 9 shapes with other cell parameters (every keyword of OTHER_PARAMS) x 12 operations x 8, each: flags, write, operation, write"}
     for c in cases:
         c.pop("_", None)
@@ -747,7 +939,7 @@ def run(chk):
         # the READ half: the Spec's reading of every distinct generated / hand-made input
         in_den = {}
         for lim in (80, 128):
-            texts = sorted({c["text"] for c in cases if c.get("limit", 128) == lim and c.get("src", "").split(":")[0] in ("small", "generated", "history", "corpus")})
+            texts = sorted({c["text"] for c in cases if c.get("limit", 128) == lim and c.get("src", "").split(":")[0] in ("small", "small-undo", "generated", "history", "undo", "corpus")})
             for t, d in zip(texts, spec.denote_many(texts, lim) if texts else []):
                 in_den[(lim, t)] = d
         built = [build_model_case(c, r, in_den.get((c.get("limit", 128), c["text"]))) for c, r in zip(cases, impl)]
